@@ -462,7 +462,8 @@ func init() {
 
 func init() {
 	addMutants("C05",
-		mutant{"duplicate-create-record-replaces-state", "pkg/engine/recovery.go", "\t\t\t\tif _, exists := indexes[name]; !exists {\n\t\t\t\t\tindexes[name] = idx\n\t\t\t\t}\n", "\t\t\t\tindexes[name] = idx\n", "CDC-8", "arm:VCREATE:registers-only-unknown-names"},
+		mutant{"duplicate-create-record-replaces-state", "pkg/engine/recovery.go", "\t\t\t\tif _, exists := lookupIndex(name); !exists {\n\t\t\t\t\tindexes[name] = idx\n\t\t\t\t}\n", "\t\t\t\tindexes[name] = idx\n", "CDC-8", "arm:VCREATE:registers-only-unknown-names"},
+		mutant{"duplicate-create-record-masks-restored-index", "pkg/engine/recovery.go", "\t\t\t\tif _, exists := lookupIndex(name); !exists {\n\t\t\t\t\tindexes[name] = idx\n\t\t\t\t}\n", "\t\t\t\tif _, exists := indexes[name]; !exists {\n\t\t\t\t\tindexes[name] = idx\n\t\t\t\t}\n", "CDC-8", "arm:VCREATE:registers-only-unknown-names"},
 	)
 }
 
@@ -633,5 +634,17 @@ func init() {
 func init() {
 	addMutants("C05",
 		mutant{"unpin-re-adds-the-memory-under-its-own-id", "internal/mcp/service.go", "\tif _, err := s.engine.VGet(idx, args.MemoryID); err != nil {\n\t\treturn nil, UnpinMemoryResult{}, fmt.Errorf(\"memory not found: %w\", err)\n\t}\n", "\tdata, err := s.engine.VGet(idx, args.MemoryID)\n\tif err != nil {\n\t\treturn nil, UnpinMemoryResult{}, fmt.Errorf(\"memory not found: %w\", err)\n\t}\n\tdelete(data.Metadata, \"_pinned\")\n\tif err := s.engine.VAdd(idx, args.MemoryID, data.Vector, data.Metadata); err != nil {\n\t\treturn nil, UnpinMemoryResult{}, err\n\t}\n", "EFF-readd", "Service.UnpinMemory:VAdd#1"},
+	)
+}
+
+func init() {
+	m := mutant{"compaction-skips-kv-keys-by-prefix", "pkg/engine/recovery.go", "\t\t// Copiamo il valore per evitare race su slice condivise.\n", "\t\tif strings.HasPrefix(pair.Key, \"tmp:\") {\n\t\t\treturn\n\t\t}\n\t\t// Copiamo il valore per evitare race su slice condivise.\n", "CDC-9", "RewriteAOF:every-kv-pair-carried-over"}
+	addMutants("C01", m)
+	addMutants("C10", m)
+}
+
+func init() {
+	addMutants("C01",
+		mutant{"cleared-auto-links-not-applied-to-restored-index", "pkg/engine/recovery.go", "\t\tif state.autoLinksSet && isHnsw {\n", "\t\tif len(state.autoLinks) > 0 && isHnsw {\n", "CDC-8", "apply:SetAutoLinks#1:also-for-the-empty-value"},
 	)
 }
